@@ -14,7 +14,7 @@ def program_set(kind):
     if kind in ("join", "all"):
         ps += gen.pair_programs(thorough)
     if kind in ("case", "all"):
-        ps += gen.case_programs()
+        ps += gen.case_programs() + gen.case_programs(empty_bodies=True)[::3]
     if kind in ("wait", "join", "all"):
         ps += gen.wait_programs()
     return ps
